@@ -22,12 +22,16 @@ def _w(args):
     return out
 
 
-def main(prop, n, seed):
+def main(prop, n, seed, plan_tier=None):
     from . import props
     spec = props.SPECS[prop]
     opts = runner.base_opts(prop)
     tasks = []
-    for profile, _ in spec.plan('quick'):
+    total = 0
+    for profile, k in spec.plan(plan_tier or 'quick'):
+        if plan_tier:
+            n = k
+        total += n
         for a in range(0, n, 20):
             tasks.append((prop, profile, seed, list(range(a, min(n, a + 20))), opts))
     hist = collections.Counter()
@@ -42,4 +46,8 @@ def main(prop, n, seed):
         print(c, sig, '| first:', p, i)
         print('     ', json.dumps(v if isinstance(v, str) else v.get('facts'), default=repr)[:1500])
     print('total signatures', len(hist))
+    if plan_tier:
+        opens = [f for f in runner.load_findings(prop) if f.status == 'open']
+        unknown = sum(c for sig, c in hist.items() if sig[0] == 'HARNESS' or not any(f.matches(sample[sig][2]) for f in opens))
+        print('MARGIN property=%s tier=%s violating_runs=%d unlisted=%d of %d' % (prop, plan_tier, sum(hist.values()), unknown, total))
     return 0
